@@ -887,6 +887,10 @@ def search(ctx, why, depth=4, cap=400000, walks=None):
                         start = b.initial()
                     except (StopWalk, IndexError):
                         continue
+                    except Exception as e:
+                        add("crash:initial-" + core.err_name(e), f"initial() of {h}x{w} {args} raised {core.err_name(e)}",
+                            {"h": h, "w": w, "args": args, "initial": True, "bad": "crash"})
+                        continue
                 bad = oracle_inv(h, w, args, start)
                 if bad:
                     add("initial:" + bad, f"initial() of {h}x{w} {args} returned {start}: {bad}",
@@ -996,6 +1000,11 @@ def replay(ctx, data):
                 try:
                     res = b.initial()
                 except (StopWalk, IndexError):
+                    continue
+                except Exception as e:
+                    if args.get("initial_blocks") is None:
+                        return Finding("crash:initial-" + core.err_name(e),
+                                       f"initial() of {h}x{w} {args} raised {core.err_name(e)} (an intermediate value was invalid)", data)
                     continue
             bad = oracle_inv(h, w, args, res)
             if bad:
